@@ -535,7 +535,10 @@ def _dispatch_sites_gated(ctx: Ctx, uni: Set[str]) -> bool:
     # helper predicates `def p(self?, x): return x.operating_state <test that holds only for RUNNING>` count as the test itself
     preds: Set[str] = set()
     owner = fn.cls
-    for m in (owner.methods.values() if owner else []):
+    # methods of the class and functions of its module alike
+    cands = list(owner.methods.values() if owner else []) + [f_ for f_ in ix.all_functions() if f_.path == fn.path and f_.cls is None
+                                                              and getattr(f_, "parent", None) is None]
+    for m in cands:
         if isinstance(m.node, ast.Lambda):
             continue
         params = [a.arg for a in m.node.args.args if a.arg not in ("self", "cls")]
